@@ -398,8 +398,24 @@ def r2_drop_logging(text, fired):
             text = text[:m.start()] + _pad('()', text[m.start():cb + 1]) + text[cb + 1:]
             continue
         e = cb + 1 + rest.end()
-        fired.append('R2 %s!(..); deleted' % m.group(1))
-        text = text[:m.start()] + _pad('', text[m.start():e]) + text[e:]
+        # the macro is deleted, but an argument that can PANIC when it is evaluated (slice / index expression, unwrap, expect) is kept as an
+        # evaluation `let _ = &(ARG);` so that its in-bounds / is-Some obligation is still generated (a log line must not crash the server:
+        # the arguments are evaluated whenever the log level is enabled)
+        keep = []
+        args = split_top(text[ob + 1:cb])
+        for a in args[1:]:
+            am = mask(a)
+            am = re.sub(r'^\s*\w+\s*=(?!=)', '', am)        # named argument `name = expr`
+            if re.search(r'\[[^\]]*\]|\.unwrap\(\)|\.expect\(', am):
+                expr = a.strip()
+                expr = re.sub(r'^\w+\s*=(?!=)\s*', '', expr)
+                keep.append('let _ = &(%s);' % norm_ws(expr))
+        if keep:
+            fired.append('R2 %s!(..); deleted, %d argument(s) that may panic kept as evaluations' % (m.group(1), len(keep)))
+            text = text[:m.start()] + _pad(' '.join(keep), text[m.start():e]) + text[e:]
+        else:
+            fired.append('R2 %s!(..); deleted' % m.group(1))
+            text = text[:m.start()] + _pad('', text[m.start():e]) + text[e:]
     return text
 
 
